@@ -163,6 +163,12 @@ class Path:
     def check(self, *extra):
         self.ex.stats["solver_calls"] += 1
         t0 = time.time()
+        if os.environ.get("PYVC_DUMP_QUERY"):
+            with open(os.environ["PYVC_DUMP_QUERY"], "w") as f:
+                f.write(self.solver.sexpr())
+                for e in extra:
+                    f.write("\n(assert %s)" % e.sexpr())
+                f.write("\n(check-sat)\n")
         r = self.solver.check(*extra)
         self.ex.stats["solver_s"] += time.time() - t0
         return r
